@@ -1,6 +1,7 @@
 (* Judge for C07b (the copybook parser end to end on RAW TEXT; a second engine of C07).
 
-   case = (0 text obs)                    any text: a copybook of the repository, a printed copybook, an edited one
+   case = (2 text record schema top nav)  stream text-nav: from the text to locations and decoded values (Judge/JTextNav.v)
+        | (0 text obs)                    any text: a copybook of the repository, a printed copybook, an edited one
         | (1 strict text intended obs)    a copybook printed from an abstract forest (harness/copybook_gen.py);
                                           intended = the printed entries, as in Judge/JC07.v
      text  code points of the copybook
@@ -24,7 +25,7 @@ From Coq Require Import ZArith NArith List Bool Arith.
 Import ListNotations.
 Require Import SR.Base.Sx SR.Base.Res SR.Model.Pipeline.
 Require SR.Spec.Copybook.
-Require SR.Model.Structure SR.Judge.JC07.
+Require SR.Model.Structure SR.Judge.JC07 SR.Judge.JTextNav.
 Open Scope Z_scope.
 
 (* ---- wire form of documents ---- *)
@@ -162,5 +163,6 @@ Definition judge (c : sx) : sx :=
           let spec_ok := match spec with Some o => sx_eqb obs (sx_outcome o) | None => false end in
           let good := res_ok_sx obs && skel_ok && spec_ok in
           judge_text text obs good (L [of_bool skel_ok; of_bool layerA; of_bool spec_ok])
+  | 2 => SR.Judge.JTextNav.judge_nav c
   | _ => L [A 9; A 0]
   end.
